@@ -33,7 +33,7 @@ na = [{"property_id": i, "reason": unclaimed.get(i, "not built yet: no model/the
       for i in ids if i not in claimed]
 m = {
     "version": 1,
-    "setup_cmd": "cd /verif/coq && ./gen_project.sh && timeout 3000 make -j16",
+    "setup_cmd": "cd /verif && timeout 3400 tools/setup.py",
     "hooks": {
         "guard": "STREAMFLOW_VERIF",
         "enable": "the harness sets STREAMFLOW_VERIF=1 in the environment of its worker processes; /repo contains "
